@@ -998,7 +998,11 @@ pub unsafe extern "C" fn SFileGetFileName(file: HANDLE, buffer: *mut c_char) -> 
         }
     };
 
-    std::ptr::copy_nonoverlapping(c_name.as_ptr(), buffer, c_name.as_bytes_with_nul().len());
+    // The caller's buffer is MAX_PATH characters by the API's convention: never write more
+    let name_bytes = c_name.as_bytes();
+    let copy_len = name_bytes.len().min(259);
+    std::ptr::copy_nonoverlapping(name_bytes.as_ptr() as *const c_char, buffer, copy_len);
+    *buffer.add(copy_len) = 0;
 
     set_last_error(ERROR_SUCCESS);
     true
@@ -2128,6 +2132,8 @@ unsafe fn fill_find_data(
 
     // Set plain name pointer (points to last component after backslash)
     let plain_name_offset = file_entry.name.rfind('\\').map(|pos| pos + 1).unwrap_or(0);
+    // Keep the pointer inside the (possibly truncated) name buffer
+    let plain_name_offset = plain_name_offset.min(copy_len);
     find_data.sz_plain_name = find_data.c_file_name.as_mut_ptr().add(plain_name_offset);
 
     // Set file information
